@@ -28,9 +28,9 @@ type Case struct {
 	DSSE     bool     `json:"dsse"`
 }
 
-var dirs = []string{"recorded", "added", "removed", "modified", "empty"}
+var dirs = []string{"recorded", "added", "removed", "modified", "line-endings-changed", "empty"}
 var commands = []string{"true", "create-n", "modify-f", "delete-g", "exit-1", "exit-2", "exit-127", "exit-255", "killed", "missing-executable", "empty-command", "stdout-1MiB"}
-var rulesets = []string{"permissive", "match-last-step", "require-f", "create-n", "malformed"}
+var rulesets = []string{"permissive", "match-last-step", "require-f", "create-n", "malformed", "none"}
 
 func h(content string) string {
 	s := sha256.Sum256([]byte(content))
@@ -46,6 +46,8 @@ func dirContent(name string) map[string]string {
 		delete(m, "g")
 	case "modified":
 		m["g"] = "G2\n"
+	case "line-endings-changed":
+		m["g"] = "G\r\n" // differs from what the last step recorded in its line ending only (verification runs without normalisation)
 	case "empty":
 		return map[string]string{}
 	}
@@ -102,6 +104,8 @@ func ruleLists(name, prefix string) (mat, prod [][]string) {
 		match = []string{"MATCH", "*", "IN", strings.TrimSuffix(prefix, "/"), "WITH", "PRODUCTS", "FROM", "s1"}
 	}
 	switch name {
+	case "none":
+		return [][]string{}, [][]string{} // an inspection that only checks the exit status
 	case "permissive":
 		return [][]string{{"ALLOW", "*"}}, [][]string{{"ALLOW", "*"}}
 	case "match-last-step":
@@ -385,7 +389,7 @@ func replay(c *mcx.Ctx, raw json.RawMessage) (string, string) {
 func init() {
 	mcx.Register(&mcx.Driver{
 		ID: "C09", Run: run, Replay: replay,
-		Rule: "full product: final-product directory {as recorded by the last step, one file added, removed, modified, empty} x 0..2 inspections (thorough: + 3 over a 4-command / 3-rule-list menu) x per inspection a command from a 12-element catalogue (no-op, create / modify / delete a file, exit 1 / 2 / 127 / 255, killed by a signal, missing executable, empty command, 1 MiB of output) x a rule list from {permissive, MATCH * WITH PRODUCTS FROM last step + DISALLOW *, REQUIRE, CREATE + DISALLOW, malformed} x {working directory, explicit run directory (rules in their prefix-qualified form)}; " +
+		Rule: "full product: final-product directory {as recorded by the last step, one file added, removed, modified, line ending changed only, empty} x 0..2 inspections (thorough: + 3 over a 4-command / 3-rule-list menu) x per inspection a command from a 12-element catalogue (no-op, create / modify / delete a file, exit 1 / 2 / 127 / 255, killed by a signal, missing executable, empty command, 1 MiB of output) x a rule list from {none, permissive, MATCH * WITH PRODUCTS FROM last step + DISALLOW *, REQUIRE, CREATE + DISALLOW, malformed} x {working directory, explicit run directory (rules in their prefix-qualified form)}; " +
 			"plus the DSSE wrapper and failing step checks (rule violated, link tampered) over a 3-command / 2-rule-list menu. Real processes; every command appends its index to a log. The reference predicts each command's effect on the directory (incl. the <name>.link files the verifier drops into the working directory), hashes contents itself and evaluates the rules with ref.Rules. non-trivial = at least one inspection and the reference decides. states = cases, transitions = inspections.",
 		Assumptions: []string{"catalogue commands have the stated file-system effects under /bin/sh", "an empty explicit run directory is refused by the entry point (don't-care)", "observations are compared after replacing scratch paths"},
 		BudgetQuick:  150e9,
